@@ -107,7 +107,7 @@ impl RSNarrow {
     /// Returns the number of bits set to 1 in the bitvector.
     #[inline(always)]
     pub fn n_ones(&self) -> usize {
-        self.rank1(self.bv.len() - 1).unwrap() + self.bv.get(self.bv.len() - 1).unwrap() as usize
+        self.bv.count_ones()
     }
 
     /// Returns the number of bits set to 0 in the bitvector.
